@@ -149,8 +149,15 @@ def wrap_method(cls, name, post, pre=None, label=None):
         w = staticmethod(_make_wrapper(raw.__func__, label, post, pre))
     elif isinstance(raw, types.FunctionType):
         w = _make_wrapper(raw, label, post, pre)
+    elif isinstance(raw, functools.cached_property):
+        # a refactor may turn a property into a cached one: the monitor then sees the computing call only (the stale cached reads are
+        # observed through the values the workload reads back), it must never crash on it
+        w = functools.cached_property(_make_wrapper(raw.func, label, post, pre))
+        w.__set_name__(cls, name)
     else:
-        raise TypeError(f"cannot wrap {cls.__name__}.{name}: {type(raw)}")
+        if STATE.ctx is not None:
+            STATE.ctx.missing_attach(f"{cls.__name__}.{name} ({type(raw).__name__})")
+        return False
     setattr(cls, name, w)
     STATE.installed.append((cls, name, raw))
     return True
